@@ -192,7 +192,10 @@ class _Dec:
                 raise CodecError('array overruns data')
             out = []
             while self.p < end:
+                before = self.p
                 out.append(self.get(et))
+                if self.p == before:
+                    raise CodecError('zero-size array element')
             if self.p != end:
                 raise CodecError('array length mismatch')
             return out
@@ -269,6 +272,16 @@ class Msg:
 
 def decode_message(raw):
     """Strict decoder for one complete message.  Raises CodecError when malformed."""
+    try:
+        return _decode_message(raw)
+    except CodecError:
+        raise
+    except (RecursionError, struct.error, UnicodeError, IndexError, ValueError, KeyError,
+            TypeError) as e:
+        raise CodecError('undecodable: %s' % type(e).__name__)
+
+
+def _decode_message(raw):
     if len(raw) < 16:
         raise CodecError('short message')
     if raw[0:1] == b'l':
